@@ -82,6 +82,11 @@ def equiv_query(pat_a, pat_b, L, groups=True, exclude=None):
         t1 = time.time()
         r = str(sv.check())
         solver_s += time.time() - t1
+        if r in ("sat", "unsat"):
+            from . import e2util
+            e2util.cross_check(sv, r, 300)
+            if e2util.XCHECK["disagree"]:
+                raise RuntimeError("solver disagreement on an SMT-LIB dump: %r" % e2util.XCHECK["disagree"][:2])
         if r == "sat":
             return "sat", prob.text_of(sv.model()), solver_s, ""
         if r != "unsat":
